@@ -37,6 +37,14 @@ class PathStr:
         return self.p
 
 
+class MyDatetime(datetime.datetime):
+    """A strict subclass of datetime (pandas.Timestamp style): still a datetime, so not a valid plain Date."""
+
+
+class MyTime(datetime.time):
+    pass
+
+
 class MyDate(datetime.date):
     pass
 
@@ -77,6 +85,7 @@ XV = collections.OrderedDict([
     # ---- dates and times
     ("X:date", lambda: datetime.date(2020, 1, 2)), ("X:datetime", lambda: datetime.datetime(2020, 1, 2, 3, 4)),
     ("X:time", lambda: datetime.time(1, 2, 3)), ("X:mydate", lambda: MyDate(2020, 1, 2)),
+    ("X:mydatetime", lambda: MyDatetime(2020, 1, 2, 3, 4)), ("X:mytime", lambda: MyTime(1, 2, 3)),
     ("X:timedelta", lambda: datetime.timedelta(1)), ("X:datestr", lambda: "2020-01-02"),
     ("X:np.datetime64", lambda: np.datetime64("2020-01-02")), ("X:aware-datetime",
                                                                 lambda: datetime.datetime(2020, 1, 2, tzinfo=datetime.timezone.utc)),
